@@ -789,6 +789,10 @@ class Run:
                 return "skip"      # another instance with that identity is already present: documented error
             if self.m["inspect"](e["obj"]).was_deleted:
                 return "skip"
+        for x in self.closure(e["obj"], "save-update"):
+            kx = self.m["inspect"](x).key
+            if kx is not None and kx in self.session.identity_map and self.session.identity_map[kx] is not x:
+                return "skip"      # the save-update cascade would reach an object whose identity another instance holds: documented error
         before_members = self.members()
         if e.get("rolled_back"):
             # relationships of the rolled-back object are let go of first (only the object itself is tried again)
